@@ -674,6 +674,14 @@ theorem native_cells_decode (c : CodecImpl) (conv : List Int → List Int) (p : 
     have hlen : bytes.length = x.rows * x.cols * x.spp * x.dtype.itemsize := by
       rw [hbytes, encodeCells_length, hwf.1]
     rw [if_neg (by rw [shapeInRange_of_shapeOK p x hshape]; decide), if_neg (by omega), if_neg (by omega)]
+    -- an accepted native colour frame is colour-by-pixel: no plane re-ordering on the way back
+    have hnp : ¬ (x.spp > 1 ∧ p.planar = some 1) := by
+      rintro ⟨hgt, hpl⟩
+      rcases hspp with hspp | hspp
+      · have : (x.spp : Int) = 1 := hspp.1
+        omega
+      · rw [hspp.2.2] at hpl; cases hpl
+    rw [if_neg hnp]
     have hst1 : 1 ≤ p.bitsStored.toNat := by omega
     have hst2 : p.bitsStored.toNat ≤ 8 * x.dtype.itemsize := by omega
     have := decodeCells_encodeCells x.dtype.itemsize p.bitsStored.toNat (p.pixelRepresentation == 1) hst1 hst2 x.data []
